@@ -427,13 +427,23 @@ def check_C26(tier):
             rng = core.rng_for(prop, seed, i)
             cells_meta = mods
             found = None
+            per_cell = {}
             for j in range(cfg["histories_per_run"]):
                 ms = cells_meta[(i + j) % len(cells_meta)]
                 ops = gen_history_c26(rng, cfg["maxlen"], ms["builtins_mutable"])
+                per_cell.setdefault(ms["cell"], []).extend(ops)
                 st, r = core.run_one_forked(run_single_c26, mods, ms["cell"], ops, timeout=30)
                 if st == "crash":
                     found = (ms["cell"], ops)
                     break
+            if found is None:
+                # the crash may need state left behind by earlier histories of the same worker (lookup caches): replay all
+                # histories of one cell as a single long history (ddmin shortens it afterwards)
+                for cell, allops in sorted(per_cell.items()):
+                    st, r = core.run_one_forked(run_single_c26, mods, cell, allops, timeout=120)
+                    if st == "crash":
+                        found = (cell, allops)
+                        break
             if found is None:
                 unreproduced[0] += 1
                 seen.add("crash-unreproduced")
